@@ -29,6 +29,13 @@ RULE = ('one run = a seeded base history (FileStorage on the simulated '
         'openCommittedBlobFile of every revision of both layers, base '
         'data file and blob directory compared after every op; non-trivial = >= 1 base and >= 2 demo '
         'commits; distinct = (kinds, outcome sequence)')
+RULE += ('  '
+         'Later additions: packs anywhere in demo histories with '
+         'explicit changes layers (verified against a pack of the '
+         'changes layer alone, base transactions must read unchanged, '
+         'the lock-step comparison goes on); a pack through the demo '
+         'storage may be refused by the collector (KeyError) or as '
+         'already packed, any other exception is a violation. ')
 BUDGET = {'quick': {'runs': 10000, 'wall': 300, 'chunk': 25},
           'thorough': {'runs': 800000, 'wall': 1200, 'chunk': 100}}
 ASSUMPTIONS = [
